@@ -7,7 +7,6 @@ use derive_more::From;
 
 use smallvec::{smallvec, SmallVec};
 
-use unchecked_unwrap::UncheckedUnwrap;
 
 use crate::{
     analysis::visit::{self, Combine, Visit, VisitExpr},
@@ -74,7 +73,8 @@ macro_rules! lookup_or_create {
         if let Ok(var) = $e.lookup_var_mut($name) {
             var
         } else {
-            unsafe { $e.create_var($name).unchecked_unwrap() }
+            // creation fails when the name is a function in the innermost scope: a runtime error
+            $e.create_var($name)?
         }
     };
 }
